@@ -140,3 +140,17 @@ func (g *Gen) privateObject(call *ssa.Call) (types.Type, bool) {
 	}
 	return p.Elem(), true
 }
+
+// addPrivate registers the object at ref (and, recursively, the structs embedded in it) as private.
+func (c *FnCtx) addPrivate(ref Term, t types.Type, blk *ssa.BasicBlock) {
+	st, ok := t.Underlying().(*types.Struct)
+	if !ok {
+		return
+	}
+	c.private = append(c.private, privObj{ref, t, blk})
+	for i := 0; i < st.NumFields(); i++ {
+		if ft := st.Field(i).Type(); isStruct(ft) {
+			c.addPrivate(app("sub", ref, num(int64(i))), ft, blk)
+		}
+	}
+}
